@@ -89,6 +89,10 @@ class UniSub(UnicodeError):
     """a direct subclass of UnicodeError: no object / start / end attributes (those belong to the Decode/Encode/Translate subclasses)"""
 
 
+class BaseSub(BaseException):
+    """an application-defined control-flow exception outside the Exception hierarchy"""
+
+
 class NoArgs(Exception):
     def __init__(self, a):
         super().__init__()
@@ -104,6 +108,7 @@ EXC = {
     'Custom': lambda k: Custom(k, {'x': 1}), 'Shouty': lambda k: Shouty(k), 'RuntimeError': lambda k: RuntimeError(k),
     'KeyboardInterrupt': lambda k: KeyboardInterrupt(k), 'SystemExit': lambda k: SystemExit(3), 'RecursionError': lambda k: RecursionError(k),
     'OSError': lambda k: OSError(5, k),
+    'GeneratorExit': lambda k: GeneratorExit(k), 'CancelledError': lambda k: __import__('asyncio').CancelledError(k), 'BaseSub': lambda k: BaseSub(k),
     'UnicodeError': lambda k: UnicodeError(k), 'UniSub': lambda k: UniSub(k),
     'UnicodeEncodeError': lambda k: UnicodeEncodeError('ascii', 'h\xe9', 1, 2, k),
     'UnicodeTranslateError': lambda k: UnicodeTranslateError('h\xe9', 1, 2, k),
@@ -173,11 +178,14 @@ def run(case, files=None):
                 'same_object': e is orig}
 
 
+OUTSIDE = ('KeyboardInterrupt', 'SystemExit', 'GeneratorExit', 'CancelledError', 'BaseSub')     # not Exception subclasses
+
+
 def judge(case, r):
     exc = case['exc']
     if 'out' in r:
         return 'no exception came out of render() although an expression raised (partial output returned)'
-    if exc in ('KeyboardInterrupt', 'SystemExit'):
+    if exc in OUTSIDE:
         if r['is_exception']:
             return 'an exception outside the Exception hierarchy was turned into an Exception subclass'
         if r['raised'] != exc:
